@@ -5,7 +5,7 @@
 (2) Binding B: hook traces of real DMRG runs (2-8 atoms, constant and adiabatic ramps, dt, precision, bond
     cap) validated by MPSRunTrace.tla with numeric atoms from dense diagonalisation of every step's
     Hamiltonian (built from the emitted rows): every local minimisation energy and every reported energy is
-    >= E0 - rounding; on gapped steps |E - E0| <= 10*energy_tolerance + 2(N-1)*precision*||H||; the returned
+    >= E0 - rounding; on gapped steps |E - E0| <= 10*energy_tolerance + 20(N-1)*precision^2*(spectral range); the returned
     state is normalised and canonical around its declared centre.
 """
 from __future__ import annotations
@@ -46,6 +46,18 @@ def make_jobs(ctx: Ctx, count: int) -> list[dict]:
             "modulation": False, "kind": "rydberg", "seed": ctx.seed * 100003 + i, "init": None,
             "strata": {"n": n, "style": style, "layout": layout, "dt": dt, "prec": prec},
         })
+    # cold starts that need many sweeps: strongly interacting rings, constant drive, read at the FIRST step
+    # (a solver that stops sweeping too early is still exact on small or warm-started problems)
+    for k, (n, spacing, om, de) in enumerate([(8, 5.0, 2.0, 15.0), (8, 6.0, 6.283, 15.0), (7, 5.0, 3.0, 12.0)][: (2 if ctx.quick else 3)]):
+        duration = 100
+        spec = seqs.simple_spec(n, "ring", spacing, {"k": "const", "d": duration, "v": om}, {"k": "const", "d": duration, "v": de})
+        times = [0.1, 0.5, 1.0]
+        jobs.append({
+            "id": count + k + 1, "seq": spec, "dt": 10.0, "precision": [1e-5, 1e-7][k % 2], "max_bond_dim": 1024, "reorder": k % 3 != 2, "solver": "dmrg",
+            "obs": [{"k": "energy", "times": times}, {"k": "occupation", "times": times}], "default_times": None,
+            "modulation": False, "kind": "rydberg", "seed": ctx.seed * 100003 + 900 + k, "init": None, "gap_factor": 3.0,
+            "strata": {"n": n, "style": "cold-start-ring", "layout": "ring", "dt": 10.0, "prec": [1e-5, 1e-7][k % 2], "spacing": spacing},
+        })
     return jobs
 
 
@@ -53,7 +65,7 @@ def run(ctx: Ctx) -> None:
     ctx.level = "exploration"
     ctx.assumptions += [
         "reference: numpy eigvalsh of the dense Hamiltonian of every step built from the emitted rows and interaction matrix",
-        "closeness is asserted only on steps whose reference gap exceeds 100x the budget 10*1e-5 + 2(N-1)*precision*||H||; a bond cap that binds can legitimately keep the energy above E0, so only the lower bound is asserted there",
+        "closeness is asserted only on steps whose reference gap exceeds 10x the budget (3x for the cold-start ring scenarios) 10*1e-5 + 2(N-1)*precision*||H||; a bond cap that binds can legitimately keep the energy above E0, so only the lower bound is asserted there",
     ]
     n = ctx.pick(40, 500)
     jobs = make_jobs(ctx, n)
